@@ -100,6 +100,13 @@ func GetToBeForceRemovedTaint(node *apiv1.Node) (apiv1.Taint, bool) {
 	return apiv1.Taint{}, false
 }
 
+const (
+	// minTaintUnixTime is 0001-01-01T00:00:00Z in Unix seconds
+	minTaintUnixTime = -62135596800
+	// maxTaintUnixTime is 9999-12-31T23:59:59Z in Unix seconds
+	maxTaintUnixTime = 253402300799
+)
+
 // GetToBeRemovedTime returns the time the node was tainted
 // result will be nil if does not exist
 func GetToBeRemovedTime(node *apiv1.Node) (*time.Time, error) {
@@ -107,6 +114,11 @@ func GetToBeRemovedTime(node *apiv1.Node) (*time.Time, error) {
 		timestamp, err := strconv.ParseInt(taint.Value, 10, 64)
 		if err != nil {
 			return nil, err
+		}
+		// time.Unix silently wraps for second counts its internal representation cannot hold, which would turn a
+		// value far in the future into a time far in the past. Accept what a Kubernetes timestamp can express.
+		if timestamp < minTaintUnixTime || timestamp > maxTaintUnixTime {
+			return nil, fmt.Errorf("taint value %v is not a valid unix time", timestamp)
 		}
 		result := time.Unix(timestamp, 0)
 		return &result, nil
